@@ -32,6 +32,7 @@ from pde.tools.plotting import PlotReference, plot_on_axes
 from pde.trackers.base import InfoDict, InterruptData
 
 from .droplets import SphericalDroplet, droplet_from_data
+from .tools.spherical import grid_distance
 
 if TYPE_CHECKING:
     from .trackers import DropletTracker
@@ -489,7 +490,7 @@ class Emulsion(list):
                 return np.linalg.norm(p1 - p2)
 
         else:
-            get_distance = functools.partial(grid.distance, coords="cartesian")
+            get_distance = functools.partial(grid_distance, grid)
 
         # calculate pairwise distance and return it in requested form
         num = len(self)
